@@ -992,7 +992,8 @@ class MetricFrame:
                 raise ValueError(_FEATURE_LIST_NONSCALAR)
         elif isinstance(features, dict):
             try:
-                df = pd.DataFrame.from_dict(features)
+                # pair the entries by position (a dict of Series would otherwise be aligned on index labels)
+                df = pd.DataFrame.from_dict({k: np.asarray(v) for k, v in features.items()})
             except ValueError as ve:
                 raise ValueError(_SF_DICT_CONVERSION_FAILURE) from ve
             for i in range(len(df.columns)):
